@@ -656,11 +656,14 @@ class Node:
         elif before is False:
             before = None  # append
         # Validate `before` first: the constructor registers the new node
-        if isinstance(before, Node) and before._parent is not self:
-            raise ValueError(
-                f"`before=node` ({before._parent}) "
-                f"must be a child of target node ({self})"
-            )
+        if isinstance(before, Node):
+            if before._parent is not self:
+                raise ValueError(
+                    f"`before=node` ({before._parent}) "
+                    f"must be a child of target node ({self})"
+                )
+        elif before is not None and not isinstance(before, int):
+            raise TypeError(f"`before` must be None, bool, int, or Node: {before!r}")
 
         if source_node is not None:
             # If creating an inherited node, use the parent class as constructor
